@@ -76,6 +76,12 @@ def c01() -> List[M]:
           "((data[checksum_offset + 1] << 8) | data[checksum_offset])", "clean"),
         M("C01", "benign-aa55-sum-builtin", P, "        checksum = 0\n        for each in data[:-2]:\n            checksum += each\n        if (checksum",
           "        checksum = sum(data[:-2])\n        if (checksum", "clean"),
+        M("C01", "aa55-validator-reuses-unmasked-helper", P, "        checksum = 0\n        for each in data[:-2]:\n            checksum += each\n        if (checksum & 0xFFFF) != int.from_bytes(data[-2:], byteorder=\"big\", signed=False):", "        if Aa55ProtocolCommand._checksum(data[:-2]) != data[-2:]:", "C01.R4"),
+        M("C01", "benign-aa55-validator-reuses-masked-helper", P, "        checksum = 0\n        for each in data[:-2]:\n            checksum += each\n        if (checksum & 0xFFFF) != int.from_bytes(data[-2:], byteorder=\"big\", signed=False):", "        if Aa55ProtocolCommand._checksum(data[:-2]) != data[-2:]:", "clean",
+          also=[(P, "        return checksum.to_bytes(2, byteorder=\"big\", signed=False)", "        return (checksum & 0xFFFF).to_bytes(2, byteorder=\"big\", signed=False)")]),
+        M("C02", "aa55-validator-reuses-unmasked-helper", P, "        checksum = 0\n        for each in data[:-2]:\n            checksum += each\n        if (checksum & 0xFFFF) != int.from_bytes(data[-2:], byteorder=\"big\", signed=False):", "        if Aa55ProtocolCommand._checksum(data[:-2]) != data[-2:]:", "C02.R1"),
+        M("C02", "benign-aa55-validator-reuses-masked-helper", P, "        checksum = 0\n        for each in data[:-2]:\n            checksum += each\n        if (checksum & 0xFFFF) != int.from_bytes(data[-2:], byteorder=\"big\", signed=False):", "        if Aa55ProtocolCommand._checksum(data[:-2]) != data[-2:]:", "clean",
+          also=[(P, "        return checksum.to_bytes(2, byteorder=\"big\", signed=False)", "        return (checksum & 0xFFFF).to_bytes(2, byteorder=\"big\", signed=False)")]),
         # R3
         M("C01", "rtu-reject-before-crc", MB, "    checksum_offset = expected_length - 2\n    if _modbus_checksum(data[2:checksum_offset])",
           "    if data[3] != cmd:\n        raise RequestRejectedException(FAILURE_CODES.get(data[4], \"UNKNOWN\"))\n    checksum_offset = expected_length - 2\n    if _modbus_checksum(data[2:checksum_offset])",
